@@ -23,8 +23,8 @@ for nm in names:
         for p in props:
             rc, out = sh(f"./check {p} --tier {tier}", cwd=VERIF, env=dict(os.environ, VERIF_REPO=wt))
             vio = [l[:300] for l in out.splitlines() if l.startswith("VIOLATION")]
-            und = [l[:200] for l in out.splitlines() if l.startswith("UNDECIDED")]
-            det[p] = {"exit": rc, "violations": vio[:3], "undecided": und[:3]}
+            prf = [l[:260] for l in out.splitlines() if l.startswith(("FAILED-OBLIGATION", "UNDECIDED property")) or "no-failing-input-found" in l]
+            det[p] = {"exit": rc, "violations": vio[:3], "proof_part": prf[:3]}
         meta["detected_by_quick_checks" if tier == "quick" else "detected_by_thorough_checks"] = det
         json.dump(meta, open(os.path.join(d, "meta.json"), "w"), indent=1)
         rows.append((nm, " ".join(f"{p}:{'DETECTED' if v['exit']==1 else 'exit'+str(v['exit'])}" for p, v in det.items())))
